@@ -251,8 +251,12 @@ theorem addStreamValue_ok {P : TP} {c c' : Ctx} {v : ValueAggregate} {name : Str
       injection h with h; subst h
       refine streamsOK_upsert name hs ?_
       intro d hd
-      simp at hd; subst hd
-      exact streamOK_addValue (streamOK_empty P) hv ha
+      rcases List.mem_cons.mp hd with hd | hd
+      · subst hd
+        exact streamOK_addValue (streamOK_empty P) hv ha
+      · cases hl : lookup c.streams name with
+        | none => simp [hl] at hd
+        | some ds => simp only [hl, Option.getD_some] at hd; exact hs _ (lookup_mem hl) d hd
     | error e => simp [ha] at h
     | panic e => simp [ha] at h
 
